@@ -74,7 +74,7 @@ def make_reaction(desc):
     rng = np.random.default_rng([desc["seed"]])
     for attempt in range(30):
         spec = R.synth_spec(rng, formalism=desc["formalism"], partial=desc.get("partial"), identical_scalars=desc.get("identical_scalars", False),
-                            max_transitions=desc.get("max_transitions", 160))
+                            max_transitions=desc.get("max_transitions", 160), shuffle_names=desc["seed"] % 2 == 1)
         r = R.build_synth(spec)
         if r is not None:
             return r, f"synth:{desc['seed']}:{attempt}"
@@ -102,7 +102,7 @@ def run_case(case, rec, ctx):
         cfg["permutate"] = False
     rfeat = reaction_features(reaction)
     feats = {**rfeat, "align": cfg["align"], "stable": cfg["stable"] is not None, "scalar_mass": cfg["scalar_mass"],
-             "axisangle_with_massless_spinful_particle": cfg["align"] == "axisangle" and any(p.mass == 0 and p.spin > 0 for p in reaction.final_state.values()),
+             **R.massless_alignment_features(reaction, cfg["align"]),
              "couplings": cfg["couplings"], "permutate": cfg["permutate"], "has_dynamics": bool(cfg["dynamics"])}
     ctx["feats"] = feats
     ctx["label"] = f"{rname} [{C.config_key(cfg)}]"
